@@ -186,8 +186,8 @@ inline ROpt roll(const RArr& a0, const L& shift, const L* axes) {
     }
     L ax = *axes; if (!norm_axes(ax, a0.dim(), true)) return std::nullopt;
     L sh = shift;
-    if (sh.size() == 1 && ax.size() > 1) sh = L(ax.size(), shift[0]);
-    if (ax.size() == 1 && sh.size() > 1) ax = L(sh.size(), ax[0]);
+    if (sh.size() == 1 && ax.size() != 1) sh = L(ax.size(), shift[0]);   // a length-1 operand stretches to the other length, also to 0 (NumPy audit)
+    if (ax.size() == 1 && sh.size() != 1) ax = L(sh.size(), ax[0]);
     if (sh.size() != ax.size()) return std::nullopt;
     L tot((size_t)a0.dim(), 0); for (size_t k = 0; k < ax.size(); k++) tot[(size_t)ax[k]] += sh[k];
     return gather(a0, a0.shape, [&](const L& i) { L s(i); for (size_t k = 0; k < s.size(); k++) s[k] = pymod(i[k] - tot[k], a0.shape[k]); return s; });
@@ -352,7 +352,8 @@ inline ROpt tensordot(const RArr& a, const RArr& b, L axa, L axb) {
     return r;
 }
 inline ROpt tensordot_n(const RArr& a, const RArr& b, long n) {
-    if (n < 0 || n > a.dim() || n > b.dim()) return std::nullopt;
+    if (n < 0) n = 0;      // numpy builds range(-n, 0) / range(0, n): both empty for n < 0 -> outer product (NumPy audit)
+    if (n > a.dim() || n > b.dim()) return std::nullopt;
     L axa, axb; for (long i = 0; i < n; i++) { axa.push_back(a.dim() - n + i); axb.push_back(i); }
     return tensordot(a, b, axa, axb);
 }
